@@ -67,6 +67,12 @@ def rpcRoundTrip (sides : List Nat) (fuel : Nat) (resDflt copiesFwd : Bool) (r h
   ((localPub sides fuel r req).filter (fun d => d.1 = h)).flatMap
     (fun d => localPub sides fuel h (rpcReply resDflt copiesFwd d.2))
 
+/-- `Session.__init__`: the origin marker of a side (`_module`).  Sides are numbered 0 = client, k + 1 = pilot k;
+    with `fromPilotId` (what the code does: `os.environ.get('RP_PILOT_ID', 'client')`, read by the translator)
+    the marker of a pilot is its own uid, otherwise all pilots carry one and the same marker -/
+def moduleOf (fromPilotId : Bool) (side : Nat) : Nat :=
+  if side = 0 then 0 else if fromPilotId then side else 1
+
 /-- number of deliveries to the local subscribers of side `t` -/
 def deliveries (ds : List (Nat × Msg)) (t : Nat) : Nat :=
   (ds.filter (fun d => d.1 = t)).length
